@@ -213,6 +213,10 @@ func validate(bundle *crl.Bundle, issuer *x509.Certificate) error {
 	if err := validateCRL(deltaCRL, issuer); err != nil {
 		return fmt.Errorf("failed to validate delta CRL: %w", err)
 	}
+	if baseCRL.Number == nil || deltaCRL.Number == nil {
+		// the CRL number extension is absent from a parsed CRL
+		return errors.New("CRL number is not set in base CRL or delta CRL")
+	}
 	if deltaCRL.Number.Cmp(baseCRL.Number) <= 0 {
 		return fmt.Errorf("delta CRL number %d is not greater than the base CRL number %d", deltaCRL.Number, baseCRL.Number)
 	}
